@@ -128,6 +128,131 @@ theorem Scopes.findLocal_ok (s : Scopes) (sm : SymMap) (hi : sm.IdsOK)
       · cases hsc
 
 
+/-! ### lookups return symbols of the name that was looked up -/
+
+theorem indexMapGet_mem' {m : Array (String × Nat)} {k : String} {v : Nat} (h : indexMapGet m k = some v) :
+    ∃ e ∈ m.toList, e.1 = k ∧ e.2 = v := by
+  unfold indexMapGet at h
+  simp only [Option.map_eq_some_iff] at h
+  obtain ⟨e, he, rfl⟩ := h
+  have hp := Array.find?_some he
+  exact ⟨e, by simpa using Array.mem_of_find?_eq_some he, eq_of_beq hp, rfl⟩
+
+theorem SymMap.record_nmFlds (sm : SymMap) {ws : Workspace} (hn : sm.NamesOK ws) (id : Nat) :
+    ∀ e ∈ (sm.record id).nameToRecordField.toList, (sm.recordField e.2).name = e.1 := by
+  unfold SymMap.record
+  by_cases h : id < sm.recordList.size
+  · rw [getElem!_pos sm.recordList id h]
+    exact hn.recFlds _ (by simp)
+  · rw [getElem!_neg sm.recordList id h]
+    have h2 : (Inhabited.default : Record).nameToRecordField = #[] := rfl
+    intro e he; rw [h2] at he; simp at he
+
+theorem SymMap.record_nmTas (sm : SymMap) {ws : Workspace} (hn : sm.NamesOK ws) (id : Nat) :
+    ∀ e ∈ (sm.record id).nameToTemplateArg.toList, (sm.templateArg e.2).name = e.1 := by
+  unfold SymMap.record
+  by_cases h : id < sm.recordList.size
+  · rw [getElem!_pos sm.recordList id h]
+    exact hn.recTas _ (by simp)
+  · rw [getElem!_neg sm.recordList id h]
+    have h2 : (Inhabited.default : Record).nameToTemplateArg = #[] := rfl
+    intro e he; rw [h2] at he; simp at he
+
+theorem SymMap.multiclass_nmTas (sm : SymMap) {ws : Workspace} (hn : sm.NamesOK ws) (id : Nat) :
+    ∀ e ∈ (sm.multiclass id).nameToTemplateArg.toList, (sm.templateArg e.2).name = e.1 := by
+  unfold SymMap.multiclass
+  by_cases h : id < sm.multiclassList.size
+  · rw [getElem!_pos sm.multiclassList id h]
+    exact hn.mcTas _ (by simp)
+  · rw [getElem!_neg sm.multiclassList id h]
+    have h2 : (Inhabited.default : Multiclass).nameToTemplateArg = #[] := rfl
+    intro e he; rw [h2] at he; simp at he
+
+theorem SymMap.findFieldGo_nm (sm : SymMap) {ws : Workspace} (hn : sm.NamesOK ws) (name : String) :
+    ∀ (fuel id f : Nat), sm.findFieldGo name fuel id = some f → (sm.recordField f).name = name
+  | 0, _, _, h => by simp [SymMap.findFieldGo] at h
+  | fuel + 1, id, f, h => by
+    unfold SymMap.findFieldGo at h
+    simp only at h
+    split at h
+    · rename_i f' hf'
+      cases h
+      obtain ⟨e, he, rfl, rfl⟩ := indexMapGet_mem' hf'
+      exact sm.record_nmFlds hn id e he
+    · obtain ⟨p, _, hp⟩ := Array.exists_of_findSome?_eq_some h
+      exact SymMap.findFieldGo_nm sm hn name fuel p f hp
+
+theorem SymMap.recordFindField_nm (sm : SymMap) {ws : Workspace} (hn : sm.NamesOK ws) {id : Nat} {name : String}
+    {f : Nat} (h : sm.recordFindField id name = some f) : (sm.recordField f).name = name :=
+  sm.findFieldGo_nm hn name _ _ _ h
+
+theorem SymMap.typFindField_nm (sm : SymMap) {ws : Workspace} (hn : sm.NamesOK ws) {t : Ty} {name : String}
+    {f : Nat} (h : sm.typFindField t name = some f) : (sm.recordField f).name = name := by
+  unfold SymMap.typFindField at h
+  split at h
+  · exact sm.recordFindField_nm hn h
+  · cases h
+
+/-- what `find_local` finds is a variable, field or template argument of that name -/
+theorem Scopes.findLocal_nm (s : Scopes) (sm : SymMap) {ws : Workspace} (hi : sm.IdsOK) (hn : sm.NamesOK ws)
+    (hs : ∀ x ∈ s.scopes, ScopeOK sm.sizes x) (hsn : ∀ x ∈ s.scopes, ScopeNm sm x) {name : String} {r : SymbolId}
+    (h : s.findLocal sm name = some r) : sm.symName r = name ∧ sm.Named r := by
+  have hok := Scopes.findLocal_ok s sm hi hs h
+  suffices hh : sm.symName r = name ∧ ((∃ i, r = .var i) ∨ (∃ i, r = .recordField i) ∨ ∃ i, r = .templateArgument i) by
+    refine ⟨hh.1, ?_⟩
+    rcases hh.2 with ⟨i, rfl⟩ | ⟨i, rfl⟩ | ⟨i, rfl⟩
+    · exact hn.vars i hok
+    · exact hn.flds i hok
+    · exact hn.tas i hok
+  unfold Scopes.findLocal at h
+  obtain ⟨scope, hmem, hsc⟩ := List.exists_of_findSome?_eq_some h
+  have hso := hsn scope hmem
+  split at hsc
+  · rename_i id hid
+    cases hsc
+    refine ⟨?_, Or.inl ⟨_, rfl⟩⟩
+    simp only [SymMap.symName]
+    unfold Scope.findVariable at hid
+    split at hid
+    · rename_i v hv
+      cases hid
+      exact hso.vars _ _ hv
+    · split at hid
+      · rename_i vn vid hk
+        split at hid
+        · rename_i heq
+          cases hid
+          rw [eq_of_beq heq]
+          exact hso.kind _ _ hk
+        · cases hid
+      · cases hid
+  · simp only at hsc
+    split at hsc
+    · rename_i r' hr'
+      cases hsc
+      split at hr'
+      · rename_i recordId _
+        split at hr'
+        · rename_i fieldId hf
+          cases hr'
+          exact ⟨sm.recordFindField_nm hn hf, Or.inr (Or.inl ⟨_, rfl⟩)⟩
+        · split at hr'
+          · rename_i t ht
+            cases hr'
+            obtain ⟨e, he, rfl, rfl⟩ := indexMapGet_mem' ht
+            exact ⟨sm.record_nmTas hn recordId e he, Or.inr (Or.inr ⟨_, rfl⟩)⟩
+          · cases hr'
+      · cases hr'
+    · split at hsc
+      · rename_i mcId _
+        split at hsc
+        · rename_i t ht
+          cases hsc
+          obtain ⟨e, he, rfl, rfl⟩ := indexMapGet_mem' ht
+          exact ⟨sm.multiclass_nmTas hn mcId e he, Or.inr (Or.inr ⟨_, rfl⟩)⟩
+        · cases hsc
+      · cases hsc
+
 /-! ### state updates that keep `Post` -/
 
 /-- weaken the result of a primitive (stated relative to its own pre-state, scopes unchanged) to the
@@ -152,7 +277,7 @@ theorem Holds.postV' {α : Type} {c0 c : IndexCtx} {m : IxM α} (h : PostV c0 c)
 theorem Inv.setSM {c : IndexCtx} (h : Inv c) {sm' : SymMap} (hs : StepOK c.ws c.symbolMap sm') :
     PostV c { c with symbolMap := sm' } :=
   ⟨⟨⟨h.ws, h.traceNe, h.trace, h.scopesNe, h.scopesNd, fun s hs' => (h.scopes s hs').mono hs.grow.sizes, hs.ids,
-      hs.locs, hs.files, h.diags⟩,
+      hs.locs, hs.files, h.diags, hs.names, fun s hs' => (h.scopesNm s hs').grow (h.scopes s hs') hs.grow.n⟩,
     ⟨rfl, rfl, ⟨[], rfl, by intro k hk; cases hk⟩, fun _ hf => hf, hs.grow⟩⟩, rfl⟩
 
 theorem Post.head_file {c0 c : IndexCtx} (h : Post c0 c) : ∃ f rest, c.fileTrace = f :: rest ∧
@@ -187,7 +312,7 @@ theorem error_step {c : IndexCtx} (hi : Inv c) {rg : Nat × Nat}
       simp only [Array.toList_push, List.mem_append, List.mem_singleton] at hd
       rcases hd with hd | rfl
       · exact hi.diags d hd
-      · exact hloc⟩, Ext.refl c |>.of_same_scopes rfl rfl rfl (fun _ h => h) (SymMap.Grow.refl _)⟩, rfl⟩
+      · exact hloc, hi.names, hi.scopesNm⟩, Ext.refl c |>.of_same_scopes rfl rfl rfl (fun _ h => h) (SymMap.Grow.refl _)⟩, rfl⟩
 
 theorem error_spec {c0 c : IndexCtx} (h : Post c0 c) {rg : Nat × Nat} (hr : RangeIn c0 rg) (msg : String) :
     Holds (error rg msg) c (fun _ c' => Post c0 c') :=
@@ -202,7 +327,8 @@ theorem nextAnonymousDefName_spec {c0 c : IndexCtx} (h : Post c0 c) :
   unfold nextAnonymousDefName
   refine Holds.modifyGet' ?_
   exact ⟨⟨h.inv.ws, h.inv.traceNe, h.inv.trace, h.inv.scopesNe, h.inv.scopesNd, h.inv.scopes, h.inv.ids, h.inv.locs,
-    h.inv.files, h.inv.diags⟩, h.ext.of_same_scopes rfl rfl rfl (fun _ hf => hf) (SymMap.Grow.refl _)⟩
+    h.inv.files, h.inv.diags, h.inv.names, h.inv.scopesNm⟩,
+    h.ext.of_same_scopes rfl rfl rfl (fun _ hf => hf) (SymMap.Grow.refl _)⟩
 
 theorem canBeCastedTo_spec {α : Type} {c : IndexCtx} (a b : Ty) {f : Bool → IxM α} {Q : α → IndexCtx → Prop}
     (h : ∀ r, Holds (f r) c Q) : Holds (canBeCastedTo a b >>= f) c Q :=
@@ -211,11 +337,18 @@ theorem canBeCastedTo_spec {α : Type} {c : IndexCtx} (a b : Ty) {f : Bool → I
 /-! scopes -/
 
 theorem scopesPush_step {c : IndexCtx} (hi : Inv c) {kind : ScopeKind}
-    (hk : ScopeKindOK c.symbolMap.sizes kind) :
+    (hk : ScopeKindOK c.symbolMap.sizes kind)
+    (hkn : ∀ nm v, kind = .foreach nm v → (c.symbolMap.var v).name = nm := by intro _ _ h; cases h) :
     Holds (scopesPush kind) c (fun _ c1 => c1 = { c with scopes := c.scopes.push kind } ∧ Inv c1) := by
   unfold scopesPush
   refine Holds.modify ⟨rfl, ?_⟩
-  refine ⟨hi.ws, hi.traceNe, hi.trace, by simp [Scopes.push], ?_, ?_, hi.ids, hi.locs, hi.files, hi.diags⟩
+  refine ⟨hi.ws, hi.traceNe, hi.trace, by simp [Scopes.push], ?_, ?_, hi.ids, hi.locs, hi.files, hi.diags, hi.names, ?_⟩
+  case refine_3 =>
+    intro s hs
+    simp only [Scopes.push, List.mem_cons] at hs
+    rcases hs with rfl | hs
+    · exact ⟨by intro n i hi'; simp at hi', hkn⟩
+    · exact hi.scopesNm s hs
   · obtain ⟨k, hk', hd⟩ := hi.scopesNd
     exact ⟨k, by simp only [Scopes.kinds, Scopes.push, List.map_cons] at hk' ⊢; exact List.mem_cons_of_mem _ hk', hd⟩
   · intro s hs
@@ -226,9 +359,10 @@ theorem scopesPush_step {c : IndexCtx} (hi : Inv c) {kind : ScopeKind}
 
 /-- pushing a scope that is not the scope of a class -/
 theorem scopesPush_spec {c0 c : IndexCtx} (h : Post c0 c) {kind : ScopeKind}
-    (hk : ScopeKindOK c.symbolMap.sizes kind) (hd : DefOnly c.symbolMap kind) :
+    (hk : ScopeKindOK c.symbolMap.sizes kind) (hd : DefOnly c.symbolMap kind)
+    (hkn : ∀ nm v, kind = .foreach nm v → (c.symbolMap.var v).name = nm := by intro _ _ h; cases h) :
     Holds (scopesPush kind) c (fun _ c1 => c1 = { c with scopes := c.scopes.push kind } ∧ Post c0 c1) := by
-  refine (scopesPush_step h.inv hk).mono ?_
+  refine (scopesPush_step h.inv hk hkn).mono ?_
   rintro _ c1 ⟨hc1, hi1⟩
   refine ⟨hc1, hi1, ?_⟩
   subst hc1
@@ -251,7 +385,8 @@ theorem scopesPop_run {c2 : IndexCtx} {top : Scope} {rest : List Scope} (hs : c2
 theorem Inv.popped {c2 : IndexCtx} (h2 : Inv c2) {top : Scope} {rest : List Scope}
     (hs : c2.scopes.scopes = top :: rest) (hnd : ∃ k ∈ rest.map (·.kind), Scopes.isDefsetKind k = false) :
     Inv { c2 with scopes := { scopes := rest } } := by
-  refine ⟨h2.ws, h2.traceNe, h2.trace, ?_, hnd, ?_, h2.ids, h2.locs, h2.files, h2.diags⟩
+  refine ⟨h2.ws, h2.traceNe, h2.trace, ?_, hnd, ?_, h2.ids, h2.locs, h2.files, h2.diags, h2.names,
+    fun s hs' => h2.scopesNm s (by rw [hs]; exact List.mem_cons_of_mem _ hs')⟩
   · intro hr
     obtain ⟨k, hk, _⟩ := hnd
     simp only at hr
@@ -404,19 +539,19 @@ theorem currentDefmId_spec {c : IndexCtx} :
 /-! allocation -/
 
 theorem addRecord_step {c : IndexCtx} (hi : Inv c) {r : Record} (g : Bool) (hr : FreshRecord r)
-    (hloc : NodeLocR c.ws r.defineLoc) :
+    (hloc : NodeLocR c.ws r.defineLoc) (htok : TokAt c.ws r.defineLoc.toLoc r.name) :
     Holds (addRecord r g) c (fun id c' => PostV c c' ∧ id < c'.symbolMap.sizes.recs ∧ c'.symbolMap.record id = r) := by
   unfold addRecord
   refine Holds.modifySM ?_
-  obtain ⟨p1, p2, p3⟩ := c.symbolMap.addRecord_ok r g hi.ids hi.locs hi.files hr hloc
+  obtain ⟨p1, p2, p3⟩ := c.symbolMap.addRecord_ok r g hi.ids hi.locs hi.files hi.names hr hloc htok
   exact ⟨hi.setSM p1, p2, p3⟩
 
 theorem addMulticlassDef_step {c : IndexCtx} (hi : Inv c) {r : Record} (hr : FreshRecord r)
-    (hloc : NodeLocR c.ws r.defineLoc) :
+    (hloc : NodeLocR c.ws r.defineLoc) (htok : TokAt c.ws r.defineLoc.toLoc r.name) :
     Holds (addMulticlassDef r) c (fun id c' => PostV c c' ∧ id < c'.symbolMap.sizes.recs ∧ c'.symbolMap.record id = r) := by
   unfold addMulticlassDef
   refine Holds.modifySM ?_
-  obtain ⟨p1, p2, p3⟩ := c.symbolMap.addMulticlassDef_ok r hi.ids hi.locs hi.files hr hloc
+  obtain ⟨p1, p2, p3⟩ := c.symbolMap.addMulticlassDef_ok r hi.ids hi.locs hi.files hi.names hr hloc htok
   exact ⟨hi.setSM p1, p2, p3⟩
 
 theorem addAnonymousDef_step {c : IndexCtx} (hi : Inv c) {r : Record} (hr : FreshRecord r)
@@ -424,58 +559,61 @@ theorem addAnonymousDef_step {c : IndexCtx} (hi : Inv c) {r : Record} (hr : Fres
     Holds (addAnonymousDef r) c (fun id c' => PostV c c' ∧ id < c'.symbolMap.sizes.recs ∧ c'.symbolMap.record id = r) := by
   unfold addAnonymousDef
   refine Holds.modifySM ?_
-  obtain ⟨p1, p2, p3⟩ := c.symbolMap.addAnonymousDef_ok r hi.ids hi.locs hi.files hr hloc
+  obtain ⟨p1, p2, p3⟩ := c.symbolMap.addAnonymousDef_ok r hi.ids hi.locs hi.files hi.names hr hloc
   exact ⟨hi.setSM p1, p2, p3⟩
 
 theorem addTemplateArgument_step {c : IndexCtx} (hi : Inv c) {a : TemplateArgument}
-    (hloc : NodeLocR c.ws a.defineLoc) :
+    (hloc : NodeLocR c.ws a.defineLoc) (htok : TokAt c.ws a.defineLoc.toLoc a.name) :
     Holds (addTemplateArgument a) c
       (fun id c' => PostV c c' ∧ id < c'.symbolMap.sizes.tas ∧ c'.symbolMap.templateArg id = a) := by
   unfold addTemplateArgument
   refine Holds.modifySM ?_
-  obtain ⟨p1, p2, p3⟩ := c.symbolMap.addTemplateArgument_ok a hi.ids hi.locs hi.files hloc
+  obtain ⟨p1, p2, p3⟩ := c.symbolMap.addTemplateArgument_ok a hi.ids hi.locs hi.files hi.names hloc htok
   exact ⟨hi.setSM p1, p2, p3⟩
 
 theorem addRecordField_step {c : IndexCtx} (hi : Inv c) {a : RecordField}
-    (ha : FieldOK c.symbolMap.sizes a) (hloc : NodeLocR c.ws a.defineLoc) :
+    (ha : FieldOK c.symbolMap.sizes a) (hloc : NodeLocR c.ws a.defineLoc)
+    (htok : TokAt c.ws a.defineLoc.toLoc a.name) :
     Holds (addRecordField a) c
       (fun id c' => PostV c c' ∧ id < c'.symbolMap.sizes.flds ∧ c'.symbolMap.recordField id = a) := by
   unfold addRecordField
   refine Holds.modifySM ?_
-  obtain ⟨p1, p2, p3⟩ := c.symbolMap.addRecordField_ok a hi.ids hi.locs hi.files ha hloc
+  obtain ⟨p1, p2, p3⟩ := c.symbolMap.addRecordField_ok a hi.ids hi.locs hi.files hi.names ha hloc htok
   exact ⟨hi.setSM p1, p2, p3⟩
 
-theorem addVariable_step {c : IndexCtx} (hi : Inv c) {a : Variable} (hloc : NodeLocR c.ws a.defineLoc) :
-    Holds (addVariable a) c (fun id c' => PostV c c' ∧ id < c'.symbolMap.sizes.vars ∧ c'.scopes = c.scopes) := by
+theorem addVariable_step {c : IndexCtx} (hi : Inv c) {a : Variable} (hloc : NodeLocR c.ws a.defineLoc)
+    (htok : TokAt c.ws a.defineLoc.toLoc a.name) :
+    Holds (addVariable a) c (fun id c' => PostV c c' ∧ id < c'.symbolMap.sizes.vars ∧ c'.scopes = c.scopes ∧
+      c'.symbolMap.var id = a) := by
   unfold addVariable
   refine Holds.modifySM ?_
-  obtain ⟨p1, p2⟩ := c.symbolMap.addVariable_ok a hi.ids hi.locs hi.files hloc
-  exact ⟨hi.setSM p1, p2, rfl⟩
+  obtain ⟨p1, p2, p3⟩ := c.symbolMap.addVariable_ok a hi.ids hi.locs hi.files hi.names hloc htok
+  exact ⟨hi.setSM p1, p2, rfl, p3⟩
 
 theorem addDefset_step {c : IndexCtx} (hi : Inv c) {a : Defset} (ha : a.defList = #[])
-    (hloc : NodeLocR c.ws a.defineLoc) :
+    (hloc : NodeLocR c.ws a.defineLoc) (htok : TokAt c.ws a.defineLoc.toLoc a.name) :
     Holds (addDefset a) c (fun id c' => PostV c c' ∧ id < c'.symbolMap.sizes.dss ∧
       (c'.symbolMap.defset id).defineLoc = a.defineLoc) := by
   unfold addDefset
   refine Holds.modifySM ?_
-  obtain ⟨p1, p2, p3⟩ := c.symbolMap.addDefset_ok a hi.ids hi.locs hi.files ha hloc
+  obtain ⟨p1, p2, p3⟩ := c.symbolMap.addDefset_ok a hi.ids hi.locs hi.files hi.names ha hloc htok
   exact ⟨hi.setSM p1, p2, p3⟩
 
 theorem addMulticlass_step {c : IndexCtx} (hi : Inv c) {a : Multiclass} (ha1 : a.nameToTemplateArg = #[])
-    (ha2 : a.parentList = #[]) (hloc : NodeLocR c.ws a.defineLoc) :
+    (ha2 : a.parentList = #[]) (hloc : NodeLocR c.ws a.defineLoc) (htok : TokAt c.ws a.defineLoc.toLoc a.name) :
     Holds (addMulticlass a) c (fun id c' => PostV c c' ∧ id < c'.symbolMap.sizes.mcs ∧
       (c'.symbolMap.multiclass id).defineLoc = a.defineLoc) := by
   unfold addMulticlass
   refine Holds.modifySM ?_
-  obtain ⟨p1, p2, p3⟩ := c.symbolMap.addMulticlass_ok a hi.ids hi.locs hi.files ha1 ha2 hloc
+  obtain ⟨p1, p2, p3⟩ := c.symbolMap.addMulticlass_ok a hi.ids hi.locs hi.files hi.names ha1 ha2 hloc htok
   exact ⟨hi.setSM p1, p2, p3⟩
 
 theorem addDefm_step {c : IndexCtx} (hi : Inv c) {a : Defm} (g : Bool) (ha : a.parentList = #[])
-    (hloc : NodeLocR c.ws a.defineLoc) :
+    (hloc : NodeLocR c.ws a.defineLoc) (htok : TokAt c.ws a.defineLoc.toLoc a.name) :
     Holds (addDefm a g) c (fun id c' => PostV c c' ∧ id < c'.symbolMap.sizes.dms) := by
   unfold addDefm
   refine Holds.modifySM ?_
-  obtain ⟨p1, p2⟩ := c.symbolMap.addDefm_ok a g hi.ids hi.locs hi.files ha hloc
+  obtain ⟨p1, p2⟩ := c.symbolMap.addDefm_ok a g hi.ids hi.locs hi.files hi.names ha hloc htok
   exact ⟨hi.setSM p1, p2⟩
 
 theorem addAnonymousDefm_step {c : IndexCtx} (hi : Inv c) {a : Defm} (ha : a.parentList = #[])
@@ -483,31 +621,34 @@ theorem addAnonymousDefm_step {c : IndexCtx} (hi : Inv c) {a : Defm} (ha : a.par
     Holds (addAnonymousDefm a) c (fun id c' => PostV c c' ∧ id < c'.symbolMap.sizes.dms) := by
   unfold addAnonymousDefm
   refine Holds.modifySM ?_
-  obtain ⟨p1, p2⟩ := c.symbolMap.addAnonymousDefm_ok a hi.ids hi.locs hi.files ha hloc
+  obtain ⟨p1, p2⟩ := c.symbolMap.addAnonymousDefm_ok a hi.ids hi.locs hi.files hi.names ha hloc
   exact ⟨hi.setSM p1, p2⟩
 
 theorem addReference_step {c : IndexCtx} (hi : Inv c) {s : SymbolId} {loc : FileRange}
-    (hs : SymOK c.symbolMap.sizes s) (hloc : NodeLocR c.ws loc) :
+    (hs : SymOK c.symbolMap.sizes s) (hloc : NodeLocR c.ws loc)
+    (hnm : c.symbolMap.Named s) (htok : TokAt c.ws loc.toLoc (c.symbolMap.symName s)) :
     Holds (addReference s loc) c (fun _ c' => PostV c c') := by
   unfold addReference
   refine Holds.modifySM ?_
-  exact hi.setSM (c.symbolMap.addReference_ok s loc hi.ids hi.locs hi.files hs hloc)
+  exact hi.setSM (c.symbolMap.addReference_ok s loc hi.ids hi.locs hi.files hi.names hs hloc hnm htok)
 
 theorem registerDefsetName_step {c : IndexCtx} (hi : Inv c) {id : Nat} (hid : id < c.symbolMap.defsetList.size) :
     Holds (registerDefsetName id) c (fun _ c' => PostV c c') := by
   unfold registerDefsetName
   refine Holds.modifySM ?_
-  exact hi.setSM (c.symbolMap.registerDefsetName_ok id hi.ids hi.locs hi.files hid)
+  exact hi.setSM (c.symbolMap.registerDefsetName_ok id hi.ids hi.locs hi.files hi.names hid)
 
-theorem addReference_spec {c0 c : IndexCtx} (h : Post c0 c) {s : SymbolId} {loc : FileRange}
-    (hs : SymOK c.symbolMap.sizes s) (hloc : LocIn c0 loc) :
+theorem addReference_spec {c0 c : IndexCtx} (h : Post c0 c) {s : SymbolId} {loc : FileRange} {nm : String}
+    (hs : SymOK c.symbolMap.sizes s) (hloc : TokIn c0 loc nm) (hname : c.symbolMap.symName s = nm)
+    (hnm : c.symbolMap.Named s) :
     Holds (addReference s loc) c (fun _ c' => Post c0 c') :=
-  Holds.post' h (addReference_step h.inv hs (hloc.nodeLoc h))
+  Holds.post' h (addReference_step h.inv hs (hloc.locIn.nodeLoc h) hnm (hname ▸ hloc.tokAt h))
 
-theorem addReference_specV {c0 c : IndexCtx} (h : PostV c0 c) {s : SymbolId} {loc : FileRange}
-    (hs : SymOK c.symbolMap.sizes s) (hloc : LocIn c0 loc) :
+theorem addReference_specV {c0 c : IndexCtx} (h : PostV c0 c) {s : SymbolId} {loc : FileRange} {nm : String}
+    (hs : SymOK c.symbolMap.sizes s) (hloc : TokIn c0 loc nm) (hname : c.symbolMap.symName s = nm)
+    (hnm : c.symbolMap.Named s) :
     Holds (addReference s loc) c (fun _ c' => PostV c0 c') :=
-  Holds.postV' h (addReference_step h.inv hs (hloc.nodeLoc h.toPost))
+  Holds.postV' h (addReference_step h.inv hs (hloc.locIn.nodeLoc h.toPost) hnm (hname ▸ hloc.tokAt h.toPost))
 
 /-! mutation of an arena entry -/
 
@@ -518,39 +659,48 @@ theorem recordMut_step {c : IndexCtx} (hi : Inv c) (id : Nat) {f : Record → Re
       ∀ e ∈ (f (c.symbolMap.record id)).nameToTemplateArg.toList,
         (c.symbolMap.templateArg e.2).defineLoc.file = (c.symbolMap.record id).defineLoc.file)
     (hF : id < c.symbolMap.recordList.size → ∀ e ∈ (f (c.symbolMap.record id)).nameToRecordField.toList,
-        (c.symbolMap.recordField e.2).defineLoc.file = (c.symbolMap.record id).defineLoc.file) :
+        (c.symbolMap.recordField e.2).defineLoc.file = (c.symbolMap.record id).defineLoc.file)
+    (hname : ∀ r, (f r).name = r.name)
+    (hNT : id < c.symbolMap.recordList.size → ∀ e ∈ (f (c.symbolMap.record id)).nameToTemplateArg.toList,
+        (c.symbolMap.templateArg e.2).name = e.1)
+    (hNF : id < c.symbolMap.recordList.size → ∀ e ∈ (f (c.symbolMap.record id)).nameToRecordField.toList,
+        (c.symbolMap.recordField e.2).name = e.1) :
     Holds (recordMut id f) c (fun _ c' => PostV c c') := by
   unfold recordMut
   refine Holds.modifySM ?_
-  exact hi.setSM (c.symbolMap.recordMut_ok id f hi.ids hi.locs hi.files hf hloc hkind hT hF)
+  exact hi.setSM (c.symbolMap.recordMut_ok id f hi.ids hi.locs hi.files hi.names hf hloc hkind hname hT hF hNT hNF)
 
 theorem multiclassMut_step {c : IndexCtx} (hi : Inv c) (id : Nat) {f : Multiclass → Multiclass}
     (hf : ∀ r, MulticlassOK c.symbolMap.sizes r → MulticlassOK c.symbolMap.sizes (f r))
     (hloc : ∀ r, (f r).defineLoc = r.defineLoc)
     (hT : id < c.symbolMap.multiclassList.size → ∀ e ∈ (f (c.symbolMap.multiclass id)).nameToTemplateArg.toList,
-        (c.symbolMap.templateArg e.2).defineLoc.file = (c.symbolMap.multiclass id).defineLoc.file) :
+        (c.symbolMap.templateArg e.2).defineLoc.file = (c.symbolMap.multiclass id).defineLoc.file)
+    (hname : ∀ r, (f r).name = r.name)
+    (hNT : id < c.symbolMap.multiclassList.size → ∀ e ∈ (f (c.symbolMap.multiclass id)).nameToTemplateArg.toList,
+        (c.symbolMap.templateArg e.2).name = e.1) :
     Holds (multiclassMut id f) c (fun _ c' => PostV c c') := by
   unfold multiclassMut
   refine Holds.modifySM ?_
-  exact hi.setSM (c.symbolMap.multiclassMut_ok id f hi.ids hi.locs hi.files hf hloc hT)
+  exact hi.setSM (c.symbolMap.multiclassMut_ok id f hi.ids hi.locs hi.files hi.names hf hloc hname hT hNT)
 
 theorem defmMut_step {c : IndexCtx} (hi : Inv c) (id : Nat) {f : Defm → Defm}
     (hf : ∀ r, DefmOK c.symbolMap.sizes r → DefmOK c.symbolMap.sizes (f r))
-    (hloc : ∀ r, (f r).defineLoc = r.defineLoc) :
+    (hloc : ∀ r, (f r).defineLoc = r.defineLoc) (hname : ∀ r, (f r).name = r.name) :
     Holds (defmMut id f) c (fun _ c' => PostV c c') := by
   unfold defmMut
   refine Holds.modifySM ?_
-  exact hi.setSM (c.symbolMap.defmMut_ok id f hi.ids hi.locs hi.files hf hloc)
+  exact hi.setSM (c.symbolMap.defmMut_ok id f hi.ids hi.locs hi.files hi.names hf hloc hname)
 
 theorem defsetMut_step {c : IndexCtx} (hi : Inv c) (id : Nat) {f : Defset → Defset}
     (hf : ∀ r, DefsetOK c.symbolMap.sizes r → DefsetOK c.symbolMap.sizes (f r))
     (hloc : ∀ r, (f r).defineLoc = r.defineLoc)
     (hD : id < c.symbolMap.defsetList.size → ∀ x ∈ (f (c.symbolMap.defset id)).defList.toList,
-        (c.symbolMap.record x).defineLoc.file = (c.symbolMap.defset id).defineLoc.file) :
+        (c.symbolMap.record x).defineLoc.file = (c.symbolMap.defset id).defineLoc.file)
+    (hname : ∀ r, (f r).name = r.name) :
     Holds (defsetMut id f) c (fun _ c' => PostV c c') := by
   unfold defsetMut
   refine Holds.modifySM ?_
-  exact hi.setSM (c.symbolMap.defsetMut_ok id f hi.ids hi.locs hi.files hf hloc hD)
+  exact hi.setSM (c.symbolMap.defsetMut_ok id f hi.ids hi.locs hi.files hi.names hf hloc hname hD)
 
 /-- `Scopes::add_variable` inserts into the innermost scope that is not a defset scope -/
 theorem insertVariableGo_ok (name : String) (id : Nat) {z : Sizes} (hid : id < z.vars) :
@@ -589,12 +739,44 @@ theorem insertVariableGo_ok (name : String) (id : Nat) {z : Sizes} (hid : id < z
         · exact htop.vars n i hi'
       · exact hs s (by simp [hs'])
 
-theorem scopesAddVariable_step {c : IndexCtx} (hi : Inv c) {v : Variable} (hloc : NodeLocR c.ws v.defineLoc) :
+theorem insertVariableGo_nm (sm : SymMap) (name : String) (id : Nat) (hnm : (sm.var id).name = name) :
+    ∀ (l l' : List Scope), Scopes.insertVariableGo name id l = some l' → (∀ s ∈ l, ScopeNm sm s) →
+      ∀ s ∈ l', ScopeNm sm s
+  | [], _, h, _ => by simp [Scopes.insertVariableGo] at h
+  | sc :: rest, l', h, hs => by
+    unfold Scopes.insertVariableGo at h
+    split at h
+    · simp only [Option.map_eq_some_iff] at h
+      obtain ⟨r', hr', rfl⟩ := h
+      intro s hs'
+      simp only [List.mem_cons] at hs'
+      rcases hs' with rfl | hs'
+      · exact hs _ (by simp)
+      · exact insertVariableGo_nm sm name id hnm rest r' hr' (fun s hs'' => hs s (by simp [hs''])) s hs'
+    · cases h
+      intro s hs'
+      simp only [List.mem_cons] at hs'
+      rcases hs' with rfl | hs'
+      · have htop := hs sc (by simp)
+        refine ⟨?_, htop.kind⟩
+        intro n i hi'
+        simp only at hi'
+        rw [Std.HashMap.getElem?_insert] at hi'
+        split at hi'
+        · rename_i heq
+          cases hi'
+          rw [← eq_of_beq heq]; exact hnm
+        · exact htop.vars n i hi'
+      · exact hs s (by simp [hs'])
+
+theorem scopesAddVariable_step {c : IndexCtx} (hi : Inv c) {v : Variable} (hloc : NodeLocR c.ws v.defineLoc)
+    (htok : TokAt c.ws v.defineLoc.toLoc v.name) :
     Holds (scopesAddVariable v) c (fun _ c' => PostV c c') := by
   unfold scopesAddVariable
-  refine Holds.bind (addVariable_step hi hloc) ?_
-  rintro id c1 ⟨h1, hid, hsc⟩
+  refine Holds.bind (addVariable_step hi hloc htok) ?_
+  rintro id c1 ⟨h1, hid, hsc, hvar⟩
   obtain ⟨l', hl1, hl2, hl3⟩ := insertVariableGo_ok v.name id hid c1.scopes.scopes h1.inv.scopesNd h1.inv.scopes
+  have hl4 := insertVariableGo_nm c1.symbolMap v.name id (by rw [hvar]) _ _ hl1 h1.inv.scopesNm
   have hins : c1.scopes.insertVariable v.name id = some { scopes := l' } := by
     simp [Scopes.insertVariable, hl1]
   refine Holds.bind (R := fun ok c2 => ok = true ∧ PostV c c2) ?_ ?_
@@ -606,7 +788,7 @@ theorem scopesAddVariable_step {c : IndexCtx} (hi : Inv c) {v : Variable} (hloc 
       rw [Scopes.kinds, ← hl2, h0] at hk
       simp at hk
     refine h1.trans ⟨⟨⟨h1.inv.ws, h1.inv.traceNe, h1.inv.trace, hne, ?_, hl3, h1.inv.ids, h1.inv.locs, h1.inv.files,
-      h1.inv.diags⟩, ⟨rfl, rfl, ⟨[], by simpa [Scopes.kinds] using hl2, by intro k hk; cases hk⟩, fun _ hf => hf,
+      h1.inv.diags, h1.inv.names, hl4⟩, ⟨rfl, rfl, ⟨[], by simpa [Scopes.kinds] using hl2, by intro k hk; cases hk⟩, fun _ hf => hf,
         SymMap.Grow.refl _⟩⟩, by simpa [Scopes.kinds] using hl2⟩
     obtain ⟨k, hk, hkd⟩ := h1.inv.scopesNd
     exact ⟨k, by simpa [Scopes.kinds, hl2] using hk, hkd⟩
@@ -615,10 +797,10 @@ theorem scopesAddVariable_step {c : IndexCtx} (hi : Inv c) {v : Variable} (hloc 
 
 /-- `index::utils::identifier` -/
 theorem utilsIdentifier_spec {c0 c : IndexCtx} (h : Post c0 c) {k : Nat} {n : PTree} (hn : Fits k c0 n) :
-    Holds (utilsIdentifier n) c (fun r c' => c = c' ∧ ∀ name loc, r = some (name, loc) → LocIn c0 loc) := by
+    Holds (utilsIdentifier n) c (fun r c' => c = c' ∧ ∀ name loc, r = some (name, loc) → TokIn c0 loc name) := by
   unfold utilsIdentifier
   split
-  · rename_i name _
+  · rename_i name hname
     refine Holds.bind (currentFileId_spec h) ?_
     rintro f c' ⟨rfl, hf0, hf⟩
     split
@@ -626,17 +808,25 @@ theorem utilsIdentifier_spec {c0 c : IndexCtx} (h : Post c0 c) {k : Nat} {n : PT
       refine Holds.pure ⟨rfl, ?_⟩
       intro name' loc hl
       cases hl
-      obtain ⟨t, ht, rfl, rfl⟩ := Ast.identifierRange_desc hr
+      unfold Ast.identifierRange at hr
+      unfold Ast.identifierValue at hname
+      simp only [Option.map_eq_some_iff] at hr hname
+      obtain ⟨t, ht, hrt⟩ := hr
+      obtain ⟨t', ht', rfl⟩ := hname
+      rw [ht] at ht'
+      cases ht'
+      cases hrt
       obtain ⟨f', hf', hd⟩ := hn.cur
       rw [hf0] at hf'
       cases hf'
-      exact ⟨hf0, t, hd.trans ht, rfl, rfl⟩
+      exact ⟨hf0, t, hd.trans (PTree.firstToken_desc ht).1, (PTree.firstToken_desc ht).2, rfl, rfl, rfl⟩
     · exact Holds.pure ⟨rfl, by intro _ _ hl; cases hl⟩
   · exact Holds.pure ⟨rfl, by intro _ _ hl; cases hl⟩
 
 /-- `resolve_id` -/
 theorem resolveId_spec {c0 c : IndexCtx} (h : Post c0 c) (name : String) :
-    Holds (resolveId name) c (fun r c' => c = c' ∧ ∀ s, r = some s → SymOK c.symbolMap.sizes s) := by
+    Holds (resolveId name) c (fun r c' => c = c' ∧ ∀ s, r = some s →
+      SymOK c.symbolMap.sizes s ∧ c.symbolMap.symName s = name ∧ c.symbolMap.Named s) := by
   unfold resolveId
   refine Holds.bind (Holds.get (Q := fun a c' => a = c ∧ c' = c) ⟨rfl, rfl⟩) ?_
   rintro _ _ ⟨rfl, rfl⟩
@@ -645,28 +835,30 @@ theorem resolveId_spec {c0 c : IndexCtx} (h : Post c0 c) (name : String) :
     refine Holds.pure ⟨rfl, ?_⟩
     intro s' hs'
     cases hs'
-    exact Scopes.findLocal_ok _ _ h.inv.ids h.inv.scopes hs
+    exact ⟨Scopes.findLocal_ok _ _ h.inv.ids h.inv.scopes hs,
+      Scopes.findLocal_nm _ _ h.inv.ids h.inv.names h.inv.scopes h.inv.scopesNm hs⟩
   · split
     · rename_i d hd
       refine Holds.pure ⟨rfl, ?_⟩
       intro s' hs'
       cases hs'
-      exact h.inv.ids.defs _ _ hd
+      exact ⟨h.inv.ids.defs _ _ hd, h.inv.names.defs _ _ hd⟩
     · split
       · rename_i d hd
         refine Holds.pure ⟨rfl, ?_⟩
         intro s' hs'
         cases hs'
-        exact h.inv.ids.dsn _ _ hd
+        exact ⟨h.inv.ids.dsn _ _ hd, h.inv.names.dsn _ _ hd, h.inv.names.dss _ (h.inv.ids.dsn _ _ hd)⟩
       · exact Holds.pure ⟨rfl, by intro _ hl; cases hl⟩
 
-theorem scopesAddVariable_spec {c0 c : IndexCtx} (h : Post c0 c) {v : Variable} (hloc : LocIn c0 v.defineLoc) :
+theorem scopesAddVariable_spec {c0 c : IndexCtx} (h : Post c0 c) {v : Variable} (hloc : TokIn c0 v.defineLoc v.name) :
     Holds (scopesAddVariable v) c (fun _ c' => Post c0 c') :=
-  Holds.post' h (scopesAddVariable_step h.inv (hloc.nodeLoc h))
+  Holds.post' h (scopesAddVariable_step h.inv (hloc.locIn.nodeLoc h) (hloc.tokAt h))
 
-theorem scopesAddVariable_specV {c0 c : IndexCtx} (h : PostV c0 c) {v : Variable} (hloc : LocIn c0 v.defineLoc) :
+theorem scopesAddVariable_specV {c0 c : IndexCtx} (h : PostV c0 c) {v : Variable}
+    (hloc : TokIn c0 v.defineLoc v.name) :
     Holds (scopesAddVariable v) c (fun _ c' => PostV c0 c') :=
-  Holds.postV' h (scopesAddVariable_step h.inv (hloc.nodeLoc h.toPost))
+  Holds.postV' h (scopesAddVariable_step h.inv (hloc.locIn.nodeLoc h.toPost) (hloc.tokAt h.toPost))
 
 /-! ### which scope kinds are on the stack -/
 
@@ -808,66 +1000,94 @@ theorem SymMap.record_mem' (sm : SymMap) {id : Nat} (h : id < sm.recordList.size
 theorem recordMut_insertTa_step {c : IndexCtx} (hi : Inv c) (rid : Nat) (name : String) {taId : Nat}
     (hta : taId < c.symbolMap.sizes.tas)
     (hfile : rid < c.symbolMap.recordList.size → (c.symbolMap.record rid).kind = .cls →
-      (c.symbolMap.templateArg taId).defineLoc.file = (c.symbolMap.record rid).defineLoc.file) :
+      (c.symbolMap.templateArg taId).defineLoc.file = (c.symbolMap.record rid).defineLoc.file)
+    (hnm : (c.symbolMap.templateArg taId).name = name) :
     Holds (recordMut rid fun rec => { rec with nameToTemplateArg := indexMapInsert rec.nameToTemplateArg name taId }) c
       (fun _ c' => PostV c c') := by
   refine recordMut_step hi rid (fun rec hrec => hrec.insertTa name hta) (fun _ => rfl) (fun _ => rfl) ?_ ?_
+    (fun _ => rfl) ?_ ?_
   · intro hlt hk e he
     rcases indexMapInsert_mem he with he | rfl
     · exact hi.files.recTas _ (c.symbolMap.record_mem hlt) hk e he
     · exact hfile hlt hk
   · intro hlt e he
     exact hi.files.recFlds _ (c.symbolMap.record_mem hlt) e he
+  · intro hlt e he
+    rcases indexMapInsert_mem he with he | rfl
+    · exact hi.names.recTas _ (c.symbolMap.record_mem hlt) e he
+    · exact hnm
+  · intro hlt e he
+    exact hi.names.recFlds _ (c.symbolMap.record_mem hlt) e he
 
 theorem recordMut_insertField_step {c : IndexCtx} (hi : Inv c) (rid : Nat) (name : String) {fid : Nat}
     (hfid : fid < c.symbolMap.sizes.flds)
     (hfile : rid < c.symbolMap.recordList.size →
-      (c.symbolMap.recordField fid).defineLoc.file = (c.symbolMap.record rid).defineLoc.file) :
+      (c.symbolMap.recordField fid).defineLoc.file = (c.symbolMap.record rid).defineLoc.file)
+    (hnm : (c.symbolMap.recordField fid).name = name) :
     Holds (recordMut rid fun rec => { rec with nameToRecordField := indexMapInsert rec.nameToRecordField name fid }) c
       (fun _ c' => PostV c c') := by
   refine recordMut_step hi rid (fun rec hrec => hrec.insertField name hfid) (fun _ => rfl) (fun _ => rfl) ?_ ?_
+    (fun _ => rfl) ?_ ?_
   · intro hlt hk e he
     exact hi.files.recTas _ (c.symbolMap.record_mem hlt) hk e he
   · intro hlt e he
     rcases indexMapInsert_mem he with he | rfl
     · exact hi.files.recFlds _ (c.symbolMap.record_mem hlt) e he
     · exact hfile hlt
+  · intro hlt e he
+    exact hi.names.recTas _ (c.symbolMap.record_mem hlt) e he
+  · intro hlt e he
+    rcases indexMapInsert_mem he with he | rfl
+    · exact hi.names.recFlds _ (c.symbolMap.record_mem hlt) e he
+    · exact hnm
 
 theorem recordMut_pushParent_step {c : IndexCtx} (hi : Inv c) (rid : Nat) {pid : Nat}
     (hp : pid < c.symbolMap.sizes.recs) :
     Holds (recordMut rid fun rec => { rec with parentList := rec.parentList.push pid }) c
       (fun _ c' => PostV c c') := by
   refine recordMut_step hi rid (fun rec hrec => hrec.pushParent hp) (fun _ => rfl) (fun _ => rfl) ?_ ?_
+    (fun _ => rfl) ?_ ?_
   · intro hlt hk e he
     exact hi.files.recTas _ (c.symbolMap.record_mem hlt) hk e he
   · intro hlt e he
     exact hi.files.recFlds _ (c.symbolMap.record_mem hlt) e he
+  · intro hlt e he
+    exact hi.names.recTas _ (c.symbolMap.record_mem hlt) e he
+  · intro hlt e he
+    exact hi.names.recFlds _ (c.symbolMap.record_mem hlt) e he
 
 theorem multiclassMut_insertTa_step {c : IndexCtx} (hi : Inv c) (mid : Nat) (name : String) {taId : Nat}
     (hta : taId < c.symbolMap.sizes.tas)
     (hfile : mid < c.symbolMap.multiclassList.size →
-      (c.symbolMap.templateArg taId).defineLoc.file = (c.symbolMap.multiclass mid).defineLoc.file) :
+      (c.symbolMap.templateArg taId).defineLoc.file = (c.symbolMap.multiclass mid).defineLoc.file)
+    (hnm : (c.symbolMap.templateArg taId).name = name) :
     Holds (multiclassMut mid fun mc => { mc with nameToTemplateArg := indexMapInsert mc.nameToTemplateArg name taId }) c
       (fun _ c' => PostV c c') := by
-  refine multiclassMut_step hi mid (fun mc hmc => hmc.insertTa name hta) (fun _ => rfl) ?_
-  intro hlt e he
-  rcases indexMapInsert_mem he with he | rfl
-  · exact hi.files.mcTas _ (c.symbolMap.multiclass_mem hlt) e he
-  · exact hfile hlt
+  refine multiclassMut_step hi mid (fun mc hmc => hmc.insertTa name hta) (fun _ => rfl) ?_ (fun _ => rfl) ?_
+  · intro hlt e he
+    rcases indexMapInsert_mem he with he | rfl
+    · exact hi.files.mcTas _ (c.symbolMap.multiclass_mem hlt) e he
+    · exact hfile hlt
+  · intro hlt e he
+    rcases indexMapInsert_mem he with he | rfl
+    · exact hi.names.mcTas _ (c.symbolMap.multiclass_mem hlt) e he
+    · exact hnm
 
 theorem multiclassMut_pushParent_step {c : IndexCtx} (hi : Inv c) (mid : Nat) {pid : Nat}
     (hp : pid < c.symbolMap.sizes.mcs) :
     Holds (multiclassMut mid fun mc => { mc with parentList := mc.parentList.push pid }) c
       (fun _ c' => PostV c c') := by
-  refine multiclassMut_step hi mid (fun mc hmc => hmc.pushParent hp) (fun _ => rfl) ?_
-  intro hlt e he
-  exact hi.files.mcTas _ (c.symbolMap.multiclass_mem hlt) e he
+  refine multiclassMut_step hi mid (fun mc hmc => hmc.pushParent hp) (fun _ => rfl) ?_ (fun _ => rfl) ?_
+  · intro hlt e he
+    exact hi.files.mcTas _ (c.symbolMap.multiclass_mem hlt) e he
+  · intro hlt e he
+    exact hi.names.mcTas _ (c.symbolMap.multiclass_mem hlt) e he
 
 theorem defmMut_pushParent_step {c : IndexCtx} (hi : Inv c) (did : Nat) {pid : Nat}
     (hp : pid < c.symbolMap.sizes.mcs) :
     Holds (defmMut did fun d => { d with parentList := d.parentList.push pid }) c
       (fun _ c' => PostV c c') :=
-  defmMut_step hi did (fun d hd => hd.pushParent hp) (fun _ => rfl)
+  defmMut_step hi did (fun d hd => hd.pushParent hp) (fun _ => rfl) (fun _ => rfl)
 
 theorem defsetMut_pushDef_step {c : IndexCtx} (hi : Inv c) (dsid : Nat) {x : Nat}
     (hx : x < c.symbolMap.sizes.recs)
@@ -875,7 +1095,7 @@ theorem defsetMut_pushDef_step {c : IndexCtx} (hi : Inv c) (dsid : Nat) {x : Nat
       (c.symbolMap.record x).defineLoc.file = (c.symbolMap.defset dsid).defineLoc.file) :
     Holds (defsetMut dsid fun ds => { ds with defList := ds.defList.push x }) c
       (fun _ c' => PostV c c') := by
-  refine defsetMut_step hi dsid (fun ds hds => hds.pushDef hx) (fun _ => rfl) ?_
+  refine defsetMut_step hi dsid (fun ds hds => hds.pushDef hx) (fun _ => rfl) ?_ (fun _ => rfl)
   intro hlt y hy
   simp only [Array.toList_push, List.mem_append, List.mem_singleton] at hy
   rcases hy with hy | rfl
